@@ -34,6 +34,18 @@ func (*c20) Decode(raw []byte) (any, error) { return decodeInto[SendScenario](ra
 var c20Forms = []string{"plain", "enh", "late-triple", "multiline", "enh-bare", "multiline-bare-first", "enh-crossclass"}
 var c20Pos = []string{"MAIL", "RCPT", "DATA", "EOD", "RSET"}
 
+// c20EscSpelling: extension keywords are not case sensitive (RFC 5321 2.4); a few servers do
+// not write them in upper case.
+func c20EscSpelling(i int) string {
+	switch i % 7 {
+	case 3:
+		return "EnhancedStatusCodes"
+	case 5:
+		return "enhancedstatuscodes"
+	}
+	return "ENHANCEDSTATUSCODES"
+}
+
 func c20Action(code int, form string) refsmtpd.Action {
 	cls := code / 100
 	switch form {
@@ -136,7 +148,7 @@ func (p *c20) Gen(seed uint64, i int, tier string) (any, bool) {
 			sc.Server.Rules = append(sc.Server.Rules, refsmtpd.Rule{Verb: pos, Nth: nth(pos, tgt, 0), Action: c20Action(400+r.Intn(200), sim.Pick(r, c20Forms))},
 				refsmtpd.Rule{Verb: "RSET", Nth: tgt + 1, Action: sim.Pick(r, []refsmtpd.Action{c20Action(451, "enh"), c20Action(554, "plain"), {Kind: "drop"}})})
 			if esc {
-				caps = append(caps, "ENHANCEDSTATUSCODES")
+				caps = append(caps, c20EscSpelling(i))
 			}
 			sc.Server.Caps = caps
 			return sc, true
@@ -162,7 +174,7 @@ func (p *c20) Gen(seed uint64, i int, tier string) (any, bool) {
 		// recipients before giving up), so the positions computed above stay exact.
 	}
 	if esc {
-		caps = append(caps, "ENHANCEDSTATUSCODES")
+		caps = append(caps, c20EscSpelling(i))
 	}
 	sc.Server.Caps = caps
 	sc.Server.MultiLine = i >= nEnum && r.Chance(1, 4)
@@ -288,7 +300,7 @@ func (p *c20) Exec(t *testing.T, scAny any) Outcome {
 	}
 	escAdvertised := false
 	for _, c := range sc.Server.Caps {
-		if c == "ENHANCEDSTATUSCODES" {
+		if strings.EqualFold(c, "ENHANCEDSTATUSCODES") {
 			escAdvertised = true
 		}
 	}
@@ -506,7 +518,7 @@ func (p *c20) Shrink(scAny any) []any {
 
 func (p *c20) Info() PropInfo {
 	return PropInfo{
-		Rule: "enumeration: reply code 400..599 (all 200) x text form {plain, enhanced code at start, enhanced-code-like triple later in the text (an IP address), multi-line, enhanced code and nothing else, multi-line whose first line is the bare enhanced code, enhanced code whose class contradicts the reply code (550 4.x.x, 451 5.x.x)} x position {MAIL, a RCPT, DATA, end-of-data, RSET} x ENHANCEDSTATUSCODES advertised or not, each in a batch of 1..3 messages x 1..3 recipients (a quarter with local parts that need quoting on the wire) drawn from the seed, DialAndSend runs partly with a refused or lost QUIT; plus sampled scenarios with several rejected recipients carrying different codes; non-trivial = at least one message was refused; distinct = distinct (label, batch size, failing steps and codes)",
+		Rule: "enumeration: reply code 400..599 (all 200) x text form {plain, enhanced code at start, enhanced-code-like triple later in the text (an IP address), multi-line, enhanced code and nothing else, multi-line whose first line is the bare enhanced code, enhanced code whose class contradicts the reply code (550 4.x.x, 451 5.x.x)} x position {MAIL, a RCPT, DATA, end-of-data, RSET} x ENHANCEDSTATUSCODES advertised (two sevenths of the runs not in upper case) or not, each in a batch of 1..3 messages x 1..3 recipients (a quarter with local parts that need quoting on the wire) drawn from the seed, DialAndSend runs partly with a refused or lost QUIT; plus sampled scenarios with several rejected recipients carrying different codes; non-trivial = at least one message was refused; distinct = distinct (label, batch size, failing steps and codes)",
 		Assumptions: []string{"NOOP is always accepted (not a position of the property)", "the rejected-recipient list is read from SendError.Error() because the type has no accessor for it",
 			"messages that follow a message after which the dialogue became illegal (C04's subject) are not judged for 'unaffected'"},
 		Real:        []string{"go-mail Client.Send/DialAndSend, SendError, smtp.Client", "net/textproto"},
